@@ -41,10 +41,16 @@ def _case(draw):
         spec.update(draw(gens.route()))
         end = max([n[3] for n in notes] + [0])
         spec["pad"] = draw(st.one_of(st.none(), st.just(end + draw(st.integers(0, 40)))))
+        if route == "split" and draw(st.booleans()):
+            # a non-note event on the final tick (together with capacities that end exactly there, see caps_mode)
+            last = max(end, spec["pad"] or 0)
+            meta.append(draw(st.sampled_from([["ks", last, "D"], ["cc", last, 7, 100], ["pc", last, 5], ["ts", last, 3, 4]])))
         if i > 0 and draw(st.integers(0, 3)) == 0:
             spec = {"notes": [], "meta": [], "route": "abs_sorted", "pad": None, "post": None}     # a message-less track
         srcs.append(spec)
     return {"route": route, "srcs": srcs, "caps": draw(st.lists(st.integers(1, 80), min_size=1, max_size=3)),
+            # capacities as given, or re-cut so that they end exactly on the source's final tick
+            "caps_mode": draw(st.sampled_from(["given", "to_end", "to_end"])),
             "requant": draw(st.booleans()), "key": draw(st.one_of(st.none(), st.sampled_from(gens.KEYS))),
             "first": draw(st.sampled_from(["derived", "original"])),
             "ops1": draw(st.lists(ops.op_strategy(ops.MUTATOR_OPS), min_size=1, max_size=4)),
@@ -107,7 +113,19 @@ def check(case):
             originals, derived = [srcs[0]], [srcs[0].copy()]
             equal_expected = (originals[0], derived[0])
         elif route == "split":
-            originals, derived = [srcs[0]], srcs[0].split(list(case["caps"]))
+            caps = list(case["caps"])
+            if case.get("caps_mode") == "to_end":
+                total = O.seq_events(srcs[0])[1]
+                cut, acc = [], 0
+                for c in caps[:-1]:
+                    if acc + c < total:
+                        cut.append(c)
+                        acc += c
+                if total - acc > 0:
+                    cut.append(total - acc)
+                caps = cut or caps
+                out.label("split-ends-on-final-tick")
+            originals, derived = [srcs[0]], srcs[0].split(caps)
         elif route == "split_bars":
             tb = Sequence.sequences_split_bars(srcs, 0, quantise_note_lengths=case["requant"])
             originals, derived = srcs, [b.sequence for bars in tb for b in bars]
